@@ -5,7 +5,7 @@ import os
 ROOT = os.path.dirname(os.path.dirname(os.path.abspath(__file__)))
 
 HOOK_COMMITS = ["7a8ba4f"]
-FIX_COMMITS = ["5737839", "2d5e69c", "bf43ee9", "0b45cfb", "823a22a", "a0bae4e", "a7c4305", "679711e", "6687037", "9f0056a", "77c6db8", "a9e432f", "5be6b47"]
+FIX_COMMITS = ["5737839", "2d5e69c", "bf43ee9", "0b45cfb", "823a22a", "a0bae4e", "a7c4305", "679711e", "6687037", "9f0056a", "8ebb5ae", "77c6db8", "a9e432f", "5be6b47"]
 
 CHECKS = {
     "C01": dict(
@@ -171,6 +171,17 @@ CHECKS["C14"] = dict(
          "and lambdify are compared; lambdify(...)(...) must equal the substituted diagram.",
     note="Trusted: TLC, float comparison, sympy for extracting affine coefficients. ZX / tensor-box parameters: not yet.",
     ref="5/C14", technique="TLA+ spec + TLC behaviours (histories of substitutions), trace validation, exact reference values")
+
+CHECKS["C15"] = dict(
+    text="Grad.tla defines the partial derivative of a parametrised circuit's evaluation exactly as A + pi B (ring "
+         "elements): multilinearity in the boxes, d/dphase of a rotation, product rule for the doubled map, d|s|^2 "
+         "for amplitude scalars; TLC proves the parameter-shift identity at all grid phases. For TLC-generated "
+         "parametrised pure and mixed circuits, symbols and grid points, grad(x, mixed=False) and the default grad(x) "
+         "of the real library are evaluated symbolically, the point is substituted by the harness with sympy, and "
+         "the result is compared with the float image of TLC's exact derivative; independent diagrams must give the "
+         "empty sum; NotImplementedError is counted as a refusal.",
+    note="Trusted: TLC, float comparison, sympy for substituting the point. Tensor-box/bubble gradients and jacobians: not yet.",
+    ref="5/C15", technique="TLA+ exact derivative semantics + TLC as reference evaluator, replay of model circuits")
 
 NOT_YET = {}
 
